@@ -111,6 +111,37 @@ func (c *Ctx) subTape(name string, id int, tape *Tape) *Ctx {
 	return ch
 }
 
+// Fork returns a child context whose decisions are replayed from rec (streams addressed by
+// bare name, e.g. as returned by Recorded of an earlier Fork/solo execution) or, when rec is
+// nil, generated and recorded under the given prefix. Used to re-execute the same scenario
+// under an enumerated fault (every k-th sink write, every cut point).
+func (c *Ctx) Fork(prefix string, rec map[string][]uint32) *Ctx {
+	var tape *Tape
+	if rec != nil {
+		tape = NewReplayTape(rec)
+	} else {
+		tape = c.Tape.Sub(prefix)
+	}
+	ch := c.subTape(prefix, 0, tape)
+	ch.TaskID = -1
+	ch.Sched = nil
+	return ch
+}
+
+// ForkRecorded returns what a generated Fork consumed, addressed by bare stream name.
+func (c *Ctx) ForkRecorded() map[string][]uint32 {
+	rec := map[string][]uint32{}
+	c.Tape.collect(rec)
+	bare := map[string][]uint32{}
+	for k, v := range rec {
+		bare[k[len(c.Tape.prefix):]] = v
+	}
+	return bare
+}
+
+// Join folds a finished fork into its parent.
+func (c *Ctx) Join(ch *Ctx) { c.merge(ch) }
+
 // merge folds a finished task's context into the run context (main goroutine, after join).
 func (c *Ctx) merge(ch *Ctx) {
 	for k, v := range ch.Counters {
